@@ -21,13 +21,14 @@ func longLine(n int) string {
 var alphabet = []fragment{
 	{"clean", "SELECT a, b"},
 	{"empty", ""},
-	{"dblspace", "SELECT  a  FROM t"},
+	{"dblspace", "SELECT  a   FROM t"},
 	{"trail-sp", "FROM t  "},
 	{"trail-tab", "WHERE a = 1\t"},
 	{"tab-ind", "\tAND b = 2"},
 	{"sp-ind", "    AND c = 3"},
 	{"mix-ind", "\t  OR d = 4"},
 	{"lower-kw", "select a from t"},
+	{"str-1line", "WHERE s = 'and  x ' AND f = 6"},
 	{"str-open", "WHERE s = 'x  select  "},
 	{"str-mid", "from  y  "},
 	{"str-close", "and  z' AND e = 5"},
@@ -203,7 +204,11 @@ func lex(text string) lexed {
 			for k := i; k < end; k++ {
 				lab[k] = stBlock
 			}
-			lx.comments = append(lx.comments, refComment{true, text[i:end]})
+			ctext := text[i:end]
+			if j < 0 {
+				ctext = strings.TrimRight(ctext, " \t\r\n") // never closed: see libTokens
+			}
+			lx.comments = append(lx.comments, refComment{true, ctext})
 			i = end
 		case isWordStart(c):
 			j := i
